@@ -24,8 +24,8 @@ DIAG = re.compile(r"error: (.*(?:was not declared|not declared in this scope|red
 T = ReactionType
 
 
-def cfg_file(name, fmt, grain="", **kw):
-    return {"name": name, "make": lambda: Network(filelist=str(R / name), fileformats=fmt, grain_model=grain, **kw)}
+def cfg_file(name, fmt, grain="", label=None, **kw):
+    return {"name": label or name, "make": lambda: Network(filelist=str(R / name), fileformats=fmt, grain_model=grain, **kw)}
 
 
 def api_net(reactions, grain="", required=(), cooling=()):
@@ -47,6 +47,9 @@ CONFIGS = [
     cfg_file("tests/data/minimal.umist", "umist"),
     cfg_file("tests/data/minimal.krome", "krome"),
     cfg_file("tests/data/primordial.krome", "krome"),
+    # a user ODE modifier whose factor names a derived quantity of the reactions: it is pasted into Fex and Jac of every back-end
+    cfg_file("tests/data/minimal.krome", "krome", label="tests/data/minimal.krome + ODE modifier using sqrTgas",
+             ode_modifier={"H": {"factors": ["-1.0e-18 * sqrTgas"], "reactants": [["H"]]}}),
     {"name": "harness/data/commons.krome (directives between reactions)", "make": lambda: Network(filelist=str(fw.VERIF / "harness" / "data" / "commons.krome"), fileformats="krome")},
     cfg_file("tests/data/minimal.leeds", "leeds", "hh93"),
     cfg_file("tests/data/minimal.leeds", "leeds", "hh93i"),
@@ -203,7 +206,7 @@ def run(res, info):
     res.assumptions = ["CUDA sources are not compiled (no nvcc)", "diagnostics other than undeclared / redefined names are counted, not judged"]
     methods = [("cvode", "dense"), ("cvode", "sparse"), ("odeint", "rosenbrock4")]
     for i, cfg in enumerate(CONFIGS):
-        ms = methods if (res.tier == "thorough" or i % 3 == 0) else [methods[i % 2]]
+        ms = methods if (res.tier == "thorough" or i % 3 == 0 or "ODE modifier" in cfg["name"]) else [methods[i % 2]]
         check_config(res, model, cfg, ms)
     rng = random.Random(res.seed * 7919 + 10)
     for i in range(4 if res.tier == "quick" else 40):
